@@ -84,9 +84,7 @@ def run(ctx):
 
     # ---- R04.3 / R04.4 shared with C09 -------------------------------------------------------------
     import c09
-    sub = type(ctx)(ctx.prop, ctx.facts, ctx.tier, ctx.config)
-    c09.run(sub)
-    for o in sub.obligations:
+    for o in ctx.own_of("c09"):
         if o["rule"] in ("R09.1", "R09.0"):
             ctx._add(o["status"], "R04.3", o["key"].split("|", 1)[1], o["desc"], o["where"], o["detail"])
         if o["rule"] == "R09.5":
@@ -150,8 +148,6 @@ def run(ctx):
     accounting_flow(ctx, M, "R04.7")
     # release == R05.2 (id from the removed entry)
     import c05
-    sub = type(ctx)(ctx.prop, ctx.facts, ctx.tier, ctx.config)
-    c05.run(sub)
-    for o in sub.obligations:
+    for o in ctx.own_of("c05"):
         if o["rule"] == "R05.2" and ("release-iff-removed" in o["key"] or ("returns-removed-id" in o["key"] and any(h.name and any(t.get("rpath") == o["key"].split("|")[1] for b, t in h.calls()) for h in handlers))):
             ctx._add(o["status"], "R04.5", o["key"].split("|", 1)[1], o["desc"], o["where"], o["detail"])
